@@ -998,8 +998,12 @@ class icmpv6 (packet_base):
       self.next = raw[self.MIN_LEN:]
       return
 
-    offset,self.next = cls.unpack_new(raw, offset=self.MIN_LEN,
-        buf_len=buf_len,prev=self)
+    try:
+      offset,self.next = cls.unpack_new(raw, offset=self.MIN_LEN,
+          buf_len=buf_len,prev=self)
+    except (RuntimeError, ValueError, IndexError, struct.error) as e:
+      self.msg('(icmp parse) warning malformed ICMPv6 message body: %s' % (e,))
+      self.next = raw[self.MIN_LEN:]
 
 
   def hdr (self, payload):
